@@ -152,7 +152,7 @@ pub fn run(report: &mut Report, replay: Option<&Value>) {
         return;
     }
     super::replay_corpus(report, &|r, v| replay_e1(r, v));
-    let hooks = Hooks { classify: &classify, classify_compile: &classify_compile, compile_failure_is_violation: true };
+    let hooks = Hooks { classify: &classify, classify_compile: &classify_compile, compile_failure_is_violation: true, rebuild: None };
     let mut items = Vec::new();
     let mut k = 0usize;
     for w in RUST_KEYWORDS {
@@ -192,7 +192,7 @@ pub fn run(report: &mut Report, replay: Option<&Value>) {
         }
     }
     if report.thorough() {
-        let hooks2 = Hooks { classify: &|_| None, classify_compile: &|_, _| None, compile_failure_is_violation: true };
+        let hooks2 = Hooks { classify: &|_| None, classify_compile: &|_, _| None, compile_failure_is_violation: true, rebuild: None };
         let mut stats = GenStats::default();
         let mut cfg = CaseCfg::default();
         cfg.gen.names.keyword_percent = 40;
